@@ -192,7 +192,8 @@ Definition dec_run (s : sexp) : option run_obs :=
 
 Inductive gen_obs := ObsOk | ObsError | ObsPanic.
 Record impl_obs := {
-  io_gen : gen_obs; io_stdout_empty : bool; io_compiles : option bool; io_shape : sexp; io_runs : list run_obs
+  io_gen : gen_obs; io_stdout_empty : bool; io_compiles : option bool; io_shape : sexp; io_runs : list run_obs;
+  io_enums : sexp     (* the enum constants declared in the output: one list of values per enum type *)
 }.
 
 Definition dec_impl (l : list sexp) : option impl_obs :=
@@ -204,7 +205,8 @@ Definition dec_impl (l : list sexp) : option impl_obs :=
                 else if String.eqb c "na" then Some None else None in
       match go, as_bool se, co, map_opt dec_run rs with
       | Some g', Some se', Some c', Some rs' =>
-          Some {| io_gen := g'; io_stdout_empty := se'; io_compiles := c'; io_shape := sh; io_runs := rs' |}
+          Some {| io_gen := g'; io_stdout_empty := se'; io_compiles := c'; io_shape := sh; io_runs := rs';
+                  io_enums := match field1 "enums" l with Some e => e | None => SSym "na" end |}
       | _, _, _, _ => None
       end
   | _, _, _, _, _ => None
@@ -491,6 +493,17 @@ Definition union_cond (S : schema) (sels : list selection) : bool :=
                            end) sels
      end) (Datatypes.S (sels_size sels)) sels.
 
+(** deprecated members of the schema, as the harness declared them *)
+Definition dec_pair (s : sexp) : option (name * name) :=
+  match s with SL [SStr a; SStr b] => Some (a, b) | _ => None end.
+Definition dec_deprecations (l : list sexp) : deprecations :=
+  let get k := match field k l with Some xs => match map_opt dec_pair xs with Some ps => ps | None => [] end | None => [] end in
+  {| dep_fields := get "fields"; dep_values := get "values" |}.
+
+(** the enum constants of a program, in the form the harness reads them off the generated source *)
+Definition enums_sexp (p : program) : sexp :=
+  SL (map (fun e : name * list (name * name) => SL (map (fun cv => SStr (snd cv)) (snd e))) (p_enums p)).
+
 (** ** The check *)
 Definition decode_fuel : nat := 400.
 
@@ -597,7 +610,8 @@ Definition check (c : sexp) : sexp :=
               if valid && negb is_linked then v_bad "valid-document-does-not-link"
               else if valid && decl_safe Sch d && excl_decl_clash Sch d then v_bad "decl-safe-does-not-exclude-clash"
               else
-              let m := generate_real Sch valid d in
+              let D := match field1 "deprecations" l with Some (SL dl) => dec_deprecations dl | _ => {| dep_fields := []; dep_values := [] |} end in
+              let m := generate_real D Sch valid d in
               let in_env := valid && env Sch d in
               let oracle :=
                 if negb valid then
@@ -628,6 +642,8 @@ Definition check (c : sexp) : sexp :=
                             match io_compiles io with
                             | Some cb =>
                                 if negb (Bool.eqb wf cb) then v_mismatch "compiles" [of_bool wf]
+                                else if match io_enums io with SSym _ => false | e => negb (sexp_peq (enums_sexp p) e) end
+                                     then v_mismatch "enum-constants" []
                                 else
                                   match (if cb && order_free d then compare_runs p opname io else None) with
                                   | Some v => v
@@ -657,6 +673,8 @@ Definition check (c : sexp) : sexp :=
                                             (if decl_safe Sch d then ["decl-safe"] else ["decl-unsafe-by-names"]) ++
                                             (if excl_member_clash Sch d then ["member-names-suffixed"] else []) ++
                                             (if excl_decl_clash Sch d then ["declaration-names-suffixed"] else []) ++
+                                            (match dep_fields D with [] => [] | _ => ["deprecated-fields"] end) ++
+                                            (match dep_values D with [] => [] | _ => ["deprecated-enum-values"] end) ++
                                             (if existsb (fun t => Nat.eqb (wrappers t) typeref_depth) (field_types Sch) then ["seven-wrappers"] else []) ++
                                             (if cb then ["compiles"] else ["does-not-compile"]) ++
                                             (if cb && negb (order_free d) then ["decode-not-compared-field-order-dependent"] else []) ++
